@@ -25,7 +25,7 @@ func (C15) Plan(tier string) core.Plan {
 
 func (C15) Info() core.Info {
 	return core.Info{
-		Rule: "planned worlds in which 1-4 parties (target and chained converters) are built with BuildFunc over NewValueSet lists with names (random casing), type-only values, subtypes and 0-3 outputs, called 1-6 times in one history with fresh option values per call (the built functions' value sets persist between calls), with and without an injected callback error; every built party's value lists are also put through the accessor clauses (Values order, Named/Typed/TypedSubtype lookup, SignatureValues->FromSignature). Oracle: the callback's view of its input set (Values and the documented lookups) is exactly the tokens injected for this execution (online provenance invariant: no residue of an earlier call); what it stores in the output set is what Result.Out and FromResult deliver and what downstream parties receive; an error it returns is Err(); on C05-stable worlds the outcome kind equals that of the twin world in which the built parties are ordinary struct functions. Non-trivial: a built party executed in >=2 calls; distinct = distinct (world shape, event-log hash)",
+		Rule: "planned worlds in which 1-4 parties (target and chained converters) are built with BuildFunc over NewValueSet lists with names (random casing), type-only values, subtypes and 0-3 outputs, called 1-6 times in one history with fresh option values per call (the built functions' value sets persist between calls), with and without an injected callback error; every built party's value lists are also put through the accessor clauses (Values order, Named/Typed/TypedSubtype lookup, SignatureValues->FromSignature). Oracle: the callback's view of its input set (Values and the documented lookups) is exactly the tokens injected for this execution (online provenance invariant: no residue of an earlier call); what it stores in the output set is what Result.Out and FromResult deliver and what downstream parties receive; an error it returns is Err(); on C05-stable worlds the outcome kind equals that of the twin world in which the built parties are ordinary struct functions; nil_struct faults feed nil pointers to built consumers; Args() of the loaded output set must re-supply every value under its label; a refused construction is a violation. Non-trivial: a built party executed in >=2 calls; distinct = distinct (world shape, event-log hash)",
 		Assumptions: []string{
 			"the accessor clauses have no seam on their path; they are exercised as world construction and reported here, but the claim for them is only that",
 			"type-only outputs of built parties are findable through the documented lookups (BuiltFindable)",
